@@ -1,5 +1,7 @@
 // Instantiation driver for value printing (never executed, only parsed).
 #include <trompeloeil.hpp>
+#include <array>
+#include <list>
 #include <map>
 #include <memory>
 #include <set>
@@ -47,6 +49,10 @@ void all(std::ostream& os) {
   std::vector<std::pair<int, char const*>> vp{{1, nullptr}};
   std::tuple<int*, std::vector<char const*>> nested{nullptr, {nullptr}};
   int arr[3] = {1, 2, 3};
+  int arr2[2][3] = {{1, 2, 3}, {4, 5, 6}};
+  char const* parr2[2][2] = {{nullptr, "a"}, {"b", nullptr}};
+  std::array<int[2], 2> sarr{};
+  std::list<std::vector<char const*>> lv;
   Opaque o{};
   Streamable sm{1};
   Custom c{1};
@@ -70,6 +76,10 @@ void all(std::ostream& os) {
   trompeloeil::print(os, vp);
   trompeloeil::print(os, nested);
   trompeloeil::print(os, arr);
+  trompeloeil::print(os, arr2);
+  trompeloeil::print(os, parr2);
+  trompeloeil::print(os, sarr);
+  trompeloeil::print(os, lv);
   trompeloeil::print(os, o);
   trompeloeil::print(os, sm);
   trompeloeil::print(os, c);
